@@ -51,6 +51,7 @@ def main():
     head = disk_provider()
     items = [(p, True) for p in sorted(glob.glob(os.path.join(V, "seeded", "fix-reverts", "F*.diff")))]
     items += [(p, False) for p in sorted(glob.glob(os.path.join(V, "seeded", "*", "patch.diff")))]
+    items += [(p, False) for p in sorted(glob.glob(os.path.join(V, "seeded", "equiv", "*", "patch.diff")))]
     for p, rev in items:
         text = open(p).read()
         try:
@@ -73,6 +74,13 @@ def main():
                     print("%-50s CONFLICT in %s" % (os.path.relpath(p, V), path))
                     bad = True
                     break
+            try:
+                import ast as _ast
+                _ast.parse(merged)
+            except SyntaxError as e:      # a fuzzy patch can put a line into the middle of an expression: that is no rebase
+                print("%-50s CONFLICT in %s (merge result does not parse: %s)" % (os.path.relpath(p, V), path, e.msg))
+                bad = True
+                break
             out += udiff(path, merged, head(path)) if rev else udiff(path, head(path), merged)
         if bad:
             continue
